@@ -10,6 +10,9 @@ for m in sorted(glob.glob(os.path.join(ROOT, "seeded", "*", "meta.json"))):
         rows.append(f"| {name} | {d.get('breaks_property')} | {d.get('summary','').replace('|','/')[:160]} | – | obsolete (see OBSOLETE.txt: the change no longer breaks the property on the repaired code) |")
         continue
     how = "concrete replay" if cr.get("concrete_replay") else ("tie broken, no-failing-input-found" if cr.get("detected") else "MISSED by this property's check")
+    ps = cr.get("per_seed") or {}
+    if len(ps) > 1:
+        how += " (seeds " + ", ".join(f"{k}: {'hit' if v.get('detected') else 'MISS'}" for k, v in ps.items()) + ")"
     if d.get("also_checked_by"):
         how += "; " + ", ".join(f"./check {k}: {v}" for k, v in d["also_checked_by"].items())
     rows.append(f"| {name} | {d.get('breaks_property')} | {d.get('summary','').replace('|','/')[:160]} | {d.get('needs','').replace('|','/')[:140]} | {how} |")
